@@ -148,6 +148,9 @@ func CanonFromPath(p *route.Path) CanonPath {
 	}
 	if b.ASPath != nil {
 		for _, s := range *b.ASPath {
+			if len(s.ASNs) == 0 {
+				continue // an empty segment carries no information (well-formedness of AS_PATH encoding is C17, not simulated)
+			}
 			c.ASPath = append(c.ASPath, Segment{Type: s.Type, ASNs: append([]uint32(nil), s.ASNs...)})
 		}
 	}
@@ -189,7 +192,11 @@ func CanonFromAttrs(a Attrs, pathID uint32) CanonPath {
 		}
 	}
 	c.LocalPref, c.MED, c.Origin = a.LocalPref, a.MED, a.Origin
-	c.ASPath = a.ASPath
+	for _, s := range a.ASPath {
+		if len(s.ASNs) > 0 {
+			c.ASPath = append(c.ASPath, s)
+		}
+	}
 	c.Communities = a.Communities
 	c.LargeComms = a.LargeComms
 	c.OriginatorID = a.OriginatorID
